@@ -35,7 +35,7 @@ def canon(f, t, fieldnames, me, loc_alias):
     if k == 'index':
         return '%s[%s]' % (canon(f, t[1], fieldnames, me, loc_alias), canon(f, t[2], fieldnames, me, loc_alias))
     if k == 'item':
-        return 'p'
+        return loc_alias.get(t, 'p')
     if k == 'local':
         return loc_alias.get(t, t[2] or '?')
     if k == 'cast':
@@ -117,6 +117,12 @@ def run(prog, rep, tier, repo):
             if tag(z) == 'index' and tag(z[1]) == 'call' and short(z[1][1]) == 'wrt':
                 alias[z[1]] = 'g'
         tloc = [s.target for s in f.stores() if tag(s.target) == 'local' and s.target[2] == 't']
+        # the item of a loop that encloses the element stores without indexing them is the step counter (`for t in 1..=maxsteps`)
+        idx_items = {z for s in st for z in subterms(s.target[2]) if tag(z) == 'item'}
+        for li in f.loop_info():
+            if li['item'] is not None and li['item'] not in idx_items and tag(li['iter']) in ('range', 'rangeincl') and \
+                    any(s.bb in li['blocks'] for s in st):
+                alias[li['item']] = 't'
         got = {}
         for s in st:
             tgt = canon(f, s.target, fn, me, alias)
